@@ -451,7 +451,11 @@ def run(tier, seed, replay):
                 "(2) commuting models (d 2..4, H diagonal in the coupling eigenbasis, constant or "
                 "time-dependent, written in the eigenbasis or a random rotated basis, all memory settings, "
                 "both unique settings): real Tempo and PT-TEMPO+compute_dynamics vs the closed form of "
-                "commuting_collapse + decoherence_factor, with S_n summed in Lean from the real eta cells.")
+                "commuting_collapse + decoherence_factor, with S_n summed in Lean from the real eta cells; "
+                "forced shapes: finite-mode baths (commensurate / incommensurate, analytic double integral), "
+                "repeated coupling eigenvalue, rotated basis, continued propagation.  (3) always-run "
+                "relations between real runs: cold bath vs T=0, one System object with a second time "
+                "step, a finite memory across continued calls.")
     res.assumptions = ["np.exp is a homomorphism (ExpHom hypothesis of decoherence_factor)",
                        "correlation_2d_integral returns the cell integrals (C12)"]
     res.not_shown = ["finite-mode bath with a non-commuting system equals explicit system+modes "
